@@ -52,7 +52,7 @@ CLAIMED = {
    tech="contract-based deductive verification: relational (self-composition) cut-point VCs over go/ssa with inferred unary invariants, z3/cvc5",
    ref="DESIGN.md section 6 (C14)"),
  "C16": dict(
-   text="Proof of the frame and ownership parts that a per-call contract can express: (a) every store and every in-place append of every function under contract has a discharged obligation that its target is not an input region, and an SSA scan of every function in rjson and internal/fp shows no store into package-level memory; (b) ReadStringBytes, UnescapeStringContent, unescapeStringContent, appendRemainderOfString, unescapeUnicodeChar and growBytesSliceCapacity return, on success, a slice whose first len(dst) elements are the destination's prior contents (quantified postcondition, invariants at every machine cut point); (c) every returned string comes from a []byte->string conversion.",
+   text="Proof of the frame and ownership parts that a per-call contract can express: (a) every store and every in-place append of every function under contract has a discharged obligation that its target is not an input region, and an SSA scan of every function in rjson and internal/fp shows no store into package-level memory; (b) ReadStringBytes, UnescapeStringContent, unescapeStringContent, appendRemainderOfString, unescapeUnicodeChar and growBytesSliceCapacity return, on success, a slice whose first len(dst) elements are the destination's prior contents (quantified postcondition, invariants at every machine cut point); (c) every returned string comes from a []byte->string conversion; (d) the results of the Buffer-taking functions (SkipValue, SkipValueFast, Valid, HandleArrayValues, HandleObjectValues and their machines) do not depend on the prior length, capacity or contents of the Buffer's stack slice (the relational self-composition proofs of C14, run here as well).",
    note="Not proved (stated in evidence.proved_subset): that the appended suffix equals the empty-destination output, scratch-content independence of ReadString's *buf, and value trees; for the first of these a BOUNDED stand-in (labelled bounded, not counted as discharged) compares ReadStringBytes / UnescapeStringContent with destinations of six capacities against the empty-destination result over an enumerated input space. Input and destination are assumed not to overlap.",
    tech="contract-based deductive verification: frame obligations per store site + quantified prefix-preservation postconditions, cut-point VCs over go/ssa, z3/cvc5",
    ref="DESIGN.md section 6 (C16)"),
